@@ -99,6 +99,16 @@ def evaluate_pair(name, A, B):
                 out.append(_viol("C11", name, "not_minimal", {"d": d, "closer_circle_angle": th, "distance_there": val, "tol": t_opt}))
             elif verdict == "cap":
                 out.append(_viol("C11", name, "UNDECIDED_cap", {"d": d}))
+    # violations in the three functions with a recorded, unrepaired defect: tag the signature with the recognised symptom
+    # (or leave it untagged, i.e. unknown, when the result is not what the recorded procedure yields)
+    if out and name in ("line_segment_to_circle", "disk_to_disk", "point_to_ellipsoid_surface"):
+        from .. import symptoms
+        sym = symptoms.known_symptom(name, A, B, d, p1, p2, L)
+        if sym:
+            for v in out:
+                if (v["kind"], name) in (("not_minimal", "line_segment_to_circle"), ("not_minimal", "disk_to_disk"),
+                                         ("point2_not_on_primitive", "point_to_ellipsoid_surface")):
+                    v["sig"] = v["sig"] + ":" + sym
     return out, {"d": d, "degenerate": d <= t_con}
 
 
